@@ -173,8 +173,9 @@ func rulePurgerGuards(r *Report, rule string) {
 			if _, _, isNil := nilTest(linfo, f.Expr); isNil {
 				continue
 			}
-			s := exprStr(f.Expr)
-			if be, ok := ast.Unparen(f.Expr).(*ast.BinaryExpr); ok && strings.Contains(s, "BoltInternalKey") &&
+			fe := resolveCopies(linfo, lit.Body, f.Expr) // a named boolean (`isInternal := ...`)
+			s := exprStr(fe)
+			if be, ok := ast.Unparen(fe).(*ast.BinaryExpr); ok && strings.Contains(s, "BoltInternalKey") &&
 				((be.Op == token.EQL && !f.Truth) || (be.Op == token.NEQ && f.Truth)) {
 				continue
 			}
@@ -200,7 +201,7 @@ func rulePurgerGuards(r *Report, rule string) {
 		ast.Inspect(fs.Body, func(m ast.Node) bool {
 			switch x := m.(type) {
 			case *ast.BranchStmt:
-				if x.Tok == token.BREAK || x.Tok == token.GOTO {
+				if x.Tok == token.BREAK || (x.Tok == token.GOTO && !gotoStaysInside(fs.Body, x)) {
 					full = false
 				}
 			case *ast.ReturnStmt:
